@@ -141,6 +141,14 @@ structure TxEntry where
   queued : Bool
 deriving DecidableEq, Repr
 
+/-- what the block handler passed to `RequestBlock` (the downloader's HandleBlock) has seen. -/
+structure BlockRec where
+  called : Bool := false        -- the handler function was started
+  count : Nat := 0              -- transaction count it was given
+  got : Nat := 0                -- transactions handed over on the channel so far
+  done : Option Bool := none    -- it returned: `some true` = nil (all transactions), `some false` = error
+deriving DecidableEq, Repr
+
 structure State where
   table : Table := preTable
   -- handshake goroutine locals and life
@@ -160,8 +168,12 @@ structure State where
   hasHH : Bool := false             -- SetHeaderHandler was called
   -- handler-visible data
   protoconfCount : Nat := 0
-  blockReq : Option Bytes := none   -- n.blockRequest (hash)
+  blockReq : Option Bytes := none   -- n.blockRequest (hash); n.requestTime != nil exactly when this is set
   blockHandler : Bool := false      -- n.blockHandler != nil
+  blockReader : Bool := false       -- n.blockReader != nil: handleBlock is streaming the requested block
+  onStopArmed : Bool := false       -- n.blockOnStop != nil
+  onStopCalls : Nat := 0            -- how often run() invoked the request's onStop
+  bh : BlockRec := {}               -- what the handler of the latest request saw
   pingNonce : Nat := 0
   txs : List TxEntry := []          -- TxManager contents
   txTimeout : Nat := 3600000        -- TxManager request timeout (ms)
@@ -226,14 +238,58 @@ def txPoll (s : State) : State × Nat :=
   ({ s with txs := s.txs.map fun x => if due x then { x with requested := s.now, queued := false } else x },
    (s.txs.filter due).length)
 
-/-- `RequestBlock` (called by the block manager on a node that `nextNode` returned). -/
+/-- `IsBusy`: `requestTime` is set by `RequestBlock` and cleared by `completeBlock` only. -/
+def State.busy (s : State) : Bool := s.blockReq.isSome
+
+/-- `RequestBlock` on an idle node (called by the block manager on a node that `nextNode`
+    returned): handler table, request, handler, `onStop` armed after the getdata was queued. -/
 def requestBlock (s : State) (hash : Bytes) : State × List Effect :=
-  ({ s with blockReq := some hash, blockHandler := true, table := s.table.set "block" .block },
+  ({ s with blockReq := some hash, blockHandler := true, blockReader := false, onStopArmed := true,
+            bh := {}, table := s.table.set "block" .block },
    [.send "getdata" 1])
+
+/-- `RequestBlock` as the API behaves: `ErrBusy` (nothing changes) while a request is outstanding. -/
+def requestBlock? (s : State) (hash : Bytes) : Option (State × List Effect) :=
+  if s.busy then none else some (requestBlock s hash)
+
+/-- `CancelBlockRequest`: the result says whether `blockReader` was set (the block message of the
+    requested block has started). The request itself (`blockRequest`, `requestTime`, the handler
+    table entry) stays until the block message is handled: a cancelled node remains busy. When the
+    reader was set it is closed: the streaming `handleBlock` fails at its next read. -/
+def cancelBlock (s : State) (hash : Bytes) : State × Bool :=
+  match s.blockReq with
+  | none => (s, false)
+  | some want =>
+    if want ≠ hash then (s, false)
+    else if s.blockReader then
+      ({ s with blockReader := false, onStopArmed := false, blockHandler := false }, true)
+    else ({ s with onStopArmed := false, blockHandler := false }, false)
 
 /-- `completeBlock`. -/
 def completeBlock (s : State) (hash : Bytes) : State :=
-  if s.blockReq = some hash then { s with blockReq := none, blockHandler := false, table := s.table.del "block" } else s
+  if s.blockReq = some hash then
+    { s with blockReq := none, blockHandler := false, blockReader := false, onStopArmed := false,
+             table := s.table.del "block" }
+  else s
+
+/-- the end of `run()`: `blockOnStop` is called if it is still set. -/
+def runEnd (s : State) : State × Bool :=
+  if s.onStopArmed then ({ s with onStopArmed := false, onStopCalls := s.onStopCalls + 1, ready := false }, true)
+  else ({ s with ready := false }, false)
+
+/-- the connection ends (peer dropped it, or the node stopped). A `handleBlock` that is streaming
+    fails at its read: it closes the transaction channel (the handler, if it was started, returns
+    an error), `completeBlock` clears the request — so `onStop` is NOT invoked for a block whose
+    message had begun — and then `run()` ends. -/
+def connectionEnd (s : State) : State × Bool :=
+  let s1 :=
+    if s.blockReader then
+      let bh := if s.bh.called && s.bh.done.isNone then { s.bh with done := some false } else s.bh
+      match s.blockReq with
+      | some h => { completeBlock s h with bh := bh }
+      | none => { s with bh := bh }
+    else s
+  runEnd s1
 
 /-! ### NodeManager.nextNode (node_manager.go) over the flags of the managed nodes -/
 
